@@ -27,6 +27,7 @@ type GenOpts struct {
 	OrderedSiblings bool // allow ordered lists that have sibling nodes in their parent container
 	ZeroLenBinary   bool // representation class: zero-length (non-nil) binary values
 	EmptyLists      bool // representation class: non-nil keyed/ordered lists without entries
+	PreciseDecimals bool // decimal64 values whose float64 needs 16-17 significant digits
 }
 
 // DefaultGen is the baseline option set.
@@ -449,6 +450,13 @@ func (g *Gen) valueOfType(parent reflect.Value, f *FieldInfo, yt *yang.YangType,
 			base = &yang.YangType{Kind: yang.Ydecimal64, FractionDigits: 2}
 		}
 		v := reflect.New(t).Elem()
+		if g.Opt.PreciseDecimals && g.coin(0.4) {
+			if f, ok := pickPreciseDecimal(g.Rng, base); ok {
+				g.Tags["precise-decimal"]++
+				v.SetFloat(f)
+				return v, true
+			}
+		}
 		v.SetFloat(pickDecimal(g.Rng, base))
 		return v, true
 	}
